@@ -74,7 +74,7 @@ def main(tier, seed, replay=None):
         ws = gen_writes(rng, builds, big=(i % 10 == 0))
         cases.append((text, builds, None, ws))
     # boundary shapes: many deps / long names
-    for k in ([255, 256, 4095, 4096] if tier == "quick" else [255, 256, 4095, 4096, 16383, 65535]):
+    for k in ([255, 256, 4095, 4096, 32767, 32768, 65535] if tier == "quick" else [255, 256, 4095, 4096, 16383, 32767, 32768, 40000, 65535]):
         text, builds = "rule r\n  command = x\nbuild out: r\n", [["out"]]
         cases.append((text, builds, None, [(0, ["d%d" % i for i in range(k)], 7)]))
     for ln in (0x7FFE, 0x7FFF):
